@@ -51,7 +51,14 @@ func processLivenessStatistics(ctx *tmapi.Context, epoch beacon.EpochTime, rtSta
 		}
 
 		status, err := regState.NodeStatus(ctx, n.PublicKey)
-		if err != nil {
+		switch err {
+		case nil:
+		case registry.ErrNoSuchNode:
+			// The node has expired and has already been removed from the registry (with a debonding
+			// interval of zero epochs this happens at the very epoch transition that is being
+			// processed), so there is nothing left to penalize.
+			continue
+		default:
 			return fmt.Errorf("failed to retrieve status for node %s: %w", n.PublicKey, err)
 		}
 		if status.IsSuspended(rtState.Runtime.ID, epoch) {
